@@ -205,3 +205,36 @@ B("C19", "series-both-first", F_GENERATORS, "unit_conns[series_conns[1].name] = 
 B("C19", "mosstack-gate", F_GENERATORS, "conns=(\"d\", \"s\"))", "conns=(\"d\", \"g\"))", "C19.3")
 B("C19", "wrapper-ports-only", F_GENERATORS, "for p in io(m).values()}", "for p in m.ports.values()}", "C19.4")
 B("C19", "nser-one-builds-array", F_GENERATORS, "    if params.nser == 1:\n        return Wrapper(params.unit)  # Easy mode\n", "", "C19.2")
+
+# ------------------------------------------------------------------ pure renames of locals (alpha-normalised away)
+def TR(prop, name, file, pattern, repl, min_count=2):
+    VARIANTS.append(dict(prop=prop, kind="benign", name=name, file=file, old=pattern, new=repl, regex=True, min_count=min_count))
+
+
+TR("C19", "series-locals-renamed", F_GENERATORS, r"\bseries_conns\b", "sconns", 6)
+TR("C19", "series-net-renamed", F_GENERATORS, r"\bunit_conns\b", "uconns", 4)
+TR("C01", "arrays-locals-renamed", F_ARRAYS, r"\bnew_insts\b", "flat_insts", 4)
+TR("C01", "portrefs-locals-renamed", F_PORTREFS, r"\bgroup_port_refs\b", "prefs", 3)
+TR("C03", "slice-locals-renamed", F_SLICE, r"\bparent_width\b", "pw", 4)
+TR("C05", "flatten-bundles-locals-renamed", F_FLATB, r"\bflat_bundle_port\b", "fbp", 4)
+TR("C08", "base-locals-renamed", F_BASE, r"\bresult\b", "res", 2)
+TR("C10", "helper-locals-renamed", F_FLATB, r"\bnewsig\b", "leaf", 6)
+TR("C13", "export-instance-locals-renamed", F_EXPORT, r"\bpinst\b", "proto_inst", 6)
+TR("C14", "compare-locals-renamed", F_PREFIX, r"\bdiff\b", "delta", 3)
+TR("C18", "module-add-locals-renamed", F_MODULE, r"\btype_ctr\b", "kind_ctr", 4)
+TR("C09", "run-locals-renamed", F_GENERATOR, r"\bhanded_on\b", "inherited", 2)
+TR("C12", "unique-name-locals-renamed", F_PARAMS, r"\bjsonstr\b", "text", 2)
+TR("C04", "instance-locals-renamed", F_INSTANCE, r"\bconnref\b", "cref", 3)
+TR("C07", "conntypes-locals-renamed", F_CONNT, r"\bchild_flattened\b", "child_flat", 3)
+TR("C11", "importer-locals-renamed", F_IMPORT, r"\bremapped_params\b", "remapped", 2)
+TR("C15", "sky130-locals-renamed", "pdks/Sky130/sky130_hdl21/pdk_logic.py", r"\bsubset\b", "cands", 4)
+TR("C16", "flatten-locals-renamed", F_FLATTEN, r"\bnew_conns\b", "child_map", 3)
+TR("C17", "simproto-locals-renamed", F_SIMPROTO, r"\banalysis_name\b(?!=)", "aname", 8)
+TR("C02", "orphanage-locals-renamed", F_ORPH, r"\binstlike\b", "insts", 2)
+TR("C06", "exporter-locals-renamed", F_EXPORT, r"\bpsig\b", "proto_sig", 4)
+T("C06", "export-module-locals-renamed", F_EXPORT, "        mapping = ModuleMapping(module, pmod)\n        self.modules_by_id[id(module)] = mapping\n        self.modules_by_name[pmod.name] = mapping",
+  "        entry = ModuleMapping(module, pmod)\n        self.modules_by_id[id(module)] = entry\n        self.modules_by_name[pmod.name] = entry")
+T("C16", "walk-locals-renamed", F_FLATTEN, "            new_sig_name = \":\".join([p.name for p in parents] + [key])", "            new_sig_name = \":\".join([q.name for q in parents] + [key])")
+T("C02", "check-instance-locals-renamed", F_CONNT, "        bad_conns = {\n            name: s for name, s in statuses.items() if not isinstance(s, Valid)\n        }\n        if bad_conns:\n            msg = f\"Invalid connections `{bad_conns}` on",
+  "        invalid = {\n            name: s for name, s in statuses.items() if not isinstance(s, Valid)\n        }\n        if invalid:\n            msg = f\"Invalid connections `{invalid}` on")
+T("C17", "export-save-locals-renamed", F_SIMPROTO, "    if isinstance(save.targ, Signal):\n        signal = save.targ.name", "    if isinstance(save.targ, Signal):\n        signal = save.targ.name  # one signal")
